@@ -37,7 +37,8 @@ CTXS = ["none", "requri", "fromto", "contact", "contactreg", "routing"]
 U32 = 2 ** 32 - 1
 NASTY = ["a%41b", "%", "%%", "100%", "a@b", "a:b", "a;b", "a?b", "a&b", "a=b", "a b", "a\"b", "a\\b", "a<b>", "a,b", "a/b", "a+b", "a$b", "ü", "名前", "𝄞x", "a\tb",
          "alice", "bob-1_2.3", "!~*'()", "+15551234567", "a#b", "[x]", "a`b", "a^b", "a|b", "{a}"]
-HOSTS = ["example.org", "a-b.example.com", "host", "h1.h2.", "192.0.2.1", "10.0.0.1", "[2001:db8::1]", "[::1]", "x1"]
+HOSTS = ["example.org", "a-b.example.com", "host", "h1.h2.", "192.0.2.1", "10.0.0.1", "0.0.0.0", "255.255.255.255", "[2001:db8::1]", "[::1]", "x1",
+         "[::]", "[::ffff:192.0.2.1]", "[::ffff:255.255.255.255]", "[fe80::1:2:3:4]", "[1:2:3:4:5:6:7:8]", "[ff02::fb]", "[2001:db8::a:0:0:1]"]
 TABLE1 = ["maddr", "ttl", "transport", "lr", "user", "method"]
 
 
